@@ -127,6 +127,13 @@ fn main() {
         if check_parse_error(src, &format!("spaced[{i}]")) { parse_cases += 1; }
         analysis_cases += check_analysis(src, &format!("spaced[{i}]")) as u64;
     }
+    // metadata keys of the wrong kind, written as composite expressions (operands with and without a real location)
+    let keys = ["base + 1", "1 + base", "base - true", "(base + 1)", "base + base", "\"k\" + 1", "base . zz + 1"];
+    for (i, k) in keys.iter().enumerate() {
+        let src = format!("party A;\n// caf\u{e9}\ntx t(base: Int) {{\n  input s {{ from: A, min_amount: Ada(1), }}\n  output {{ to: A, amount: s, }}\n  metadata {{ {k}: \"some value\", }}\n}}\n");
+        if check_parse_error(&src, &format!("metadata-key[{i}]")) { parse_cases += 1; }
+        analysis_cases += check_analysis(&src, &format!("metadata-key[{i}] {k}")) as u64;
+    }
     for (i, src) in mism.iter().enumerate() {
         if check_parse_error(src, &format!("mismatch[{i}]")) { parse_cases += 1; }
         analysis_cases += check_analysis(src, &format!("mismatch[{i}]")) as u64;
